@@ -178,6 +178,16 @@ func checkC08(c *h.Ctx, ec *ExecCase) {
 				} else {
 					c.Held("soft.silent-errs")
 				}
+				// Match: an answer is established only by the single boolean
+				// that was found; several items, or none, or another item, are
+				// no answer - NULL
+				if entry == "match" && sq != nil && sq.Class == h.OK && !(len(sq.Items) == 1 && isBool(sq.Items[0])) {
+					if s.Class != h.Null {
+						c.Violate("soft.match-null", feat("items", fmt.Sprint(min(len(sq.Items), 3))), fmt.Sprintf("verbose Match: %s; silent Query found %s - no single boolean; silent Match: %s instead of NULL", v.Summary(), sq.Summary(), s.Summary()), cs)
+					} else {
+						c.Held("soft.match-null")
+					}
+				}
 			}
 		case h.Hard:
 			// 4. non-suppressible errors are returned unchanged
@@ -282,11 +292,13 @@ func runC08(c *h.Ctx) {
 	// directed: the two bounds of a range, one raising a non-suppressible and
 	// the other a suppressible error; a boolean found before a suppressible
 	// failure; a subscript expression that fails after one item
-	dirDoc := `{"list":[10,20,30,40],"idx":[1,"x"],"ks":[{"k":1},{"j":2}],"bl":[true,"zz"],"ab":[{"b":false},{"c":1}],"s":"x","d":"2024-06-14","n":2}`
+	dirDoc := `{"list":[10,20,30,40],"idx":[1,"x"],"ks":[{"k":1},{"j":2}],"bl":[true,"zz"],"ab":[{"b":false},{"c":1}],"s":"x","d":"2024-06-14","n":2,"tf":[true,false],"abc":[{"b":false},{"b":true},{}]}`
 	k := 0
 	for _, pt := range []string{"$.list[$missing to $.s.double()]", "$.list[$.s.double() to $missing]", "$.list[$.d.timestamp_tz() to $.s.integer()]", "$.list[$.n.decimal(0) to $.nokey]", "strict $.list[$missing to $.nokey]",
 		"$.list[0 to $missing]", "$.list[$missing]", "$ ? (@.list[$missing to @.s.double()] > 0)", "$.bl[*].boolean()", "strict $.ab[*].b", "$.bl[*].boolean() ? (@ == true)",
-		"strict $.list[$.idx[0, 5]]", "$.list[$.idx[*].double()]", "strict $.list[$.ks[*].k]", "strict $.list[0 to $.ks[*].k]", "$ ? (@.list[@.idx[*].double()] > 15)", "strict $.list ? (@.size() > 2)[$.ks[*].k]"} {
+		"strict $.list[$.idx[0, 5]]", "$.list[$.idx[*].double()]", "strict $.list[$.ks[*].k]", "strict $.list[0 to $.ks[*].k]", "$ ? (@.list[@.idx[*].double()] > 15)", "strict $.list ? (@.size() > 2)[$.ks[*].k]",
+		// several items, the first of them a boolean: no answer for Match
+		"$.tf[*]", "strict $.abc[*].b", "$.tf[*].boolean()", "$.tf", "$.bl[*]", "$.tf[0,1]", "$.tf[*] ? (@ == true || @ == false)", "$.abc[*].b", "$.tf[*].type()", "$.bl[*].boolean().string()"} {
 		for v := 0; v < 4; v++ {
 			k++
 			if !c.Mine(k) {
